@@ -40,6 +40,12 @@ def build(prop):
     tasks = []
     for m in mods:
         tasks.extend(m.tasks(eng))
+    eng.carry = {role: {p for p, roles in PROP_ROLES.items() if roles is None or role in roles}
+                 for role in CARRIED_ROLES}
+    for t in tasks:
+        if t.label.endswith(':SqParser.parse'):
+            # SqParser.eval (and everything checked through it) assumes the contract of parse at its call site
+            t.carried_by = {p for p, roles in PROP_ROLES.items() if roles is None or 'sq_parser' in roles}
     from sqv import findings
     findings.install(eng, prop)
     from sqv import canary
@@ -132,6 +138,14 @@ PROP_ROLES = {
 }
 
 
+# every property is about what eval / parse / list_names do with a TEXT: each relies on the tokens and on the tree
+# the grammar actions build (their contracts are carried by every property, see Exec.prove)
+for _p, _roles in PROP_ROLES.items():
+    if _roles is not None:
+        PROP_ROLES[_p] = set(_roles) | {'parser_action', 'token_rule'}
+CARRIED_ROLES = ('helper', 'scoped_dict_method', 'parser_action', 'token_rule')
+
+
 def relevant_tasks(prop, tasks):
     """tasks whose role can carry obligations of this property.  Chosen by role, never by what the
     unchanged tree happened to generate: a change may add the first write / call / lookup to a function"""
@@ -217,4 +231,12 @@ def main(argv=None):
 
 
 if __name__ == '__main__':
-    sys.exit(main())
+    try:
+        code = main()
+    except SystemExit:
+        raise
+    except BaseException as e:       # a crash of the checker is never a verdict about the code
+        traceback.print_exc()
+        print('CHECKER-ERROR the checker crashed: %s: %s' % (type(e).__name__, e))
+        code = 3
+    sys.exit(code)
